@@ -128,19 +128,19 @@ Proof.
 Qed.
 
 Lemma row_okb_sound rows cr :
-  In cr rows -> row_okb (sheet_bases rows) cr = true -> @row_ok (sheet_names rows) cr /\ reads_same cr /\ cr_uuid cr = [].
+  In cr rows -> row_okb (sheet_bases rows) cr = true -> @row_ok (sheet_names rows) cr /\ reads_same cr.
 Proof.
   intros Hin. unfold row_okb, row_ok. intros H. apply andb_true_iff in H as [H H3]. apply andb_true_iff in H as [H H2]. apply andb_true_iff in H as [H0 H1].
   apply edges_agreeb_sound in H0 as [Hsame Hargs].
-  assert (Hu : cr_uuid cr = []) by (destruct (cr_uuid cr); [reflexivity|discriminate]).
-  split; [|split; [exact Hsame|exact Hu]]. split.
+  split; [|exact Hsame]. split; [|split].
   - rewrite forallb_forall in H1. rewrite Forall_forall in Hargs. apply Forall_forall. intros e He. specialize (H1 e He).
     unfold edge_ok, cond_ok. destruct (Hargs e He) as [Ha Hb]. split; [exact Ha|]. split; [exact Hb|].
     apply (edge_okb_sound rows cr e Hin He H1).
+  - intros Hne. destruct (cr_uuid cr) as [|a u] eqn:Eu; [contradiction|]. apply andb_true_iff in H2 as [E1 E2].
+    apply str_eqb_eq in E1. split; [exact E1|]. intros E. rewrite E, str_eqb_refl in E2. discriminate.
   - destruct (r_type (cr_row cr)) as [cls acts dec0| | | | | |]; try exact I.
-    destruct (r_node_name (cr_row cr)); [|discriminate]. rewrite Hu in H3.
     apply andb_true_iff in H3 as [H3 H6]. apply andb_true_iff in H3 as [H4 H5].
-    split; [reflexivity|]. split; [exact Hu|]. split; [apply eclass_eqb_eq, H4|]. split; [apply rdec_eqb_shallow_eq, H5|].
+    split; [apply eclass_eqb_eq, H4|]. split; [apply rdec_eqb_shallow_eq, H5|].
     destruct (cr_kind cr); try discriminate.
     + apply Nat.leb_le, H6.
     + apply Nat.leb_le, H6.
@@ -172,14 +172,11 @@ Proof.
     + intros c H. apply cond_agreesb_sound. unfold cond_agreesb. rewrite H. apply orb_true_r.
 Qed.
 
-Theorem fragb_sound rows :
-  fragb rows = true -> Forall (@row_ok (sheet_names rows)) rows /\ Forall reads_same rows /\ no_given rows /\ starts_with_node rows.
+Theorem fragb_sound rows : fragb rows = true -> Forall (@row_ok (sheet_names rows)) rows /\ Forall reads_same rows.
 Proof.
-  unfold fragb. intros H. apply andb_true_iff in H as [H1 H2]. rewrite forallb_forall in H1. split; [|split; [|split]].
+  unfold fragb. intros H1. rewrite forallb_forall in H1. split.
   - apply Forall_forall. intros cr Hcr. apply (row_okb_sound rows cr Hcr), H1, Hcr.
   - apply Forall_forall. intros cr Hcr. apply (row_okb_sound rows cr Hcr), H1, Hcr.
-  - intros cr Hcr. apply (row_okb_sound rows cr Hcr), H1, Hcr.
-  - unfold starts_with_node. destruct rows as [|cr r]; [exact I|]. destruct (r_type (cr_row cr)); try discriminate. exact I.
 Qed.
 
 (* the theorem in the form the harness evaluates: on a sheet that passes the fragment test *)
@@ -191,6 +188,6 @@ Theorem compile_refines_rowsem_fragb fresh validate name rows f ref :
   (forall t, FlowFacts.traces ref t -> exists t', FlowFacts.traces f t' /\ Forall2 (ematch sexp SexpEq.smatch) t t')
   /\ (forall t, FlowFacts.traces f t -> exists t', FlowFacts.traces ref t' /\ Forall2 (ematch sexp (fun a b => SexpEq.smatch b a)) t t').
 Proof.
-  intros Hi Hs Hv Hfr. destruct (fragb_sound rows Hfr) as (H1 & H2 & H3 & H4).
+  intros Hi Hs Hv Hfr. destruct (fragb_sound rows Hfr) as (H1 & H2).
   eapply (@compile_refines_rowsem_partial (sheet_names rows)); eauto.
 Qed.
